@@ -43,6 +43,7 @@ func verifHoldRealNames(S []string) []string {
 	}
 	return out
 }
+
 var verifHoldHolders = []string{"a", "b", "c", "system"}
 
 type verifHoldEnt struct {
@@ -362,8 +363,11 @@ func TestVerifHold(t *testing.T) {
 	restore := snapstate.MockTimeNow(func() time.Time { return d.now })
 	defer restore()
 
+	// directed histories, always run: an expired hold entry must keep refusing further holds whatever other
+	// snaps (or the administrator) do meanwhile
+	nd := d.runDirected()
 	r := rand.New(rand.NewSource(int64(seed)*7919 + 15))
-	for i := 0; i < n; i++ {
+	for i := nd; i < n+nd; i++ {
 		d.caseN = i
 		d.reset()
 		d.st.Lock()
@@ -374,9 +378,90 @@ func TestVerifHold(t *testing.T) {
 		}
 	}
 	d.w.Flush()
-	fmt.Printf("VERIF-STATS {\"traces\":%d,\"calls\":%d,\"refused\":%d,\"distinct_hold_states\":%d}\n", n, d.calls, d.refused, len(d.distinct))
+	fmt.Printf("VERIF-STATS {\"traces\":%d,\"calls\":%d,\"refused\":%d,\"distinct_hold_states\":%d}\n", n+nd, d.calls, d.refused, len(d.distinct))
 }
 
+type verifHoldStep struct {
+	op  string // hold, tick, proceed, syshold, refreshed
+	g   string
+	S   []string
+	d   int64
+	lvl int
+}
+
+func verifHoldDirected() [][]verifHoldStep {
+	H := func(g string, S ...string) verifHoldStep { return verifHoldStep{op: "hold", g: g, S: S} }
+	T := func(d int64) verifHoldStep { return verifHoldStep{op: "tick", d: d} }
+	P := func(g string, S ...string) verifHoldStep {
+		if S == nil {
+			S = []string{}
+		}
+		return verifHoldStep{op: "proceed", g: g, S: S}
+	}
+	Sys := func(d int64, S ...string) verifHoldStep { return verifHoldStep{op: "syshold", S: S, d: d, lvl: 1} }
+	var out [][]verifHoldStep
+	// X=b holds A=a; clock passes t0+48h; somebody else proceeds; X asks again (must be refused); two cycles
+	for _, other := range [][]verifHoldStep{
+		{P("c")},              // another gating snap proceeds on everything (hook exit 0 / --proceed)
+		{P("c", "a")},         // ... on the held snap explicitly
+		{P("system")},         // the administrator unholds everything
+		{P("system", "a")},    // ... the held snap
+		{P("a")},              // the held snap itself proceeds
+		{H("c", "c"), P("c")}, // the other snap held something of its own
+		{P("c"), P("system"), P("a")},
+	} {
+		for _, pre := range [][]verifHoldStep{{}, {Sys(24, "a")}, {H("c", "a")}, {H("b", "c")}} {
+			var h []verifHoldStep
+			h = append(h, pre...)
+			h = append(h, H("b", "a"), T(49))
+			h = append(h, other...)
+			h = append(h, H("b", "a"), T(1), T(46), T(2))
+			h = append(h, other...)
+			h = append(h, H("b", "a"), T(47), H("b", "a"), T(2))
+			out = append(out, h)
+		}
+	}
+	// the same around the 90-day bound for a snap holding itself
+	out = append(out, []verifHoldStep{H("a", "a"), T(90*24 + 1), P("c"), H("a", "a"), T(24), P("system"), H("a", "a"), T(1)})
+	// exactly at the bound
+	out = append(out, []verifHoldStep{H("b", "a"), T(48), P("c"), H("b", "a"), T(1), H("b", "a")})
+	return out
+}
+
+func (d *verifHoldDriver) runDirected() int {
+	hs := verifHoldDirected()
+	for i, h := range hs {
+		d.caseN = i
+		d.reset()
+		d.st.Lock()
+		d.emit("Reset", map[string]interface{}{}, nil)
+		for _, st := range h {
+			switch st.op {
+			case "hold":
+				rem, err := snapstate.HoldRefresh(d.st, snapstate.HoldAutoRefresh, st.g, 0, st.S...)
+				d.emit("Hold", map[string]interface{}{"g": st.g, "S": st.S}, d.holdResult(rem, err))
+			case "tick":
+				d.now = d.now.Add(time.Duration(st.d) * time.Hour)
+				d.emit("Tick", map[string]interface{}{"d": st.d}, nil)
+			case "proceed":
+				if err := snapstate.ProceedWithRefresh(d.st, st.g, st.S); err != nil {
+					d.fail("ProceedWithRefresh: %v", err)
+				}
+				d.calls++
+				d.emit("Proceed", map[string]interface{}{"g": st.g, "S": st.S}, nil)
+			case "syshold":
+				holdTime := d.now.Add(time.Duration(st.d) * time.Hour).Format(time.RFC3339)
+				if err := snapstate.HoldRefreshesBySystem(d.st, snapstate.HoldLevel(st.lvl), holdTime, st.S); err != nil {
+					d.fail("HoldRefreshesBySystem: %v", err)
+				}
+				d.calls++
+				d.emit("SystemHold", map[string]interface{}{"S": st.S, "d": st.d, "lvl": st.lvl}, nil)
+			}
+		}
+		d.st.Unlock()
+	}
+	return len(hs)
+}
 
 // ---------------------------------------------------------------------------------------------------------
 // The same protocol with refreshes going through the real request + task runner: snapstate.Update (doInstall
